@@ -256,6 +256,7 @@ class Unit:
         subs = []
         ret_name = 'r'
         use_lemmas = None
+        mutself = False
         rename = None
         sig_override = None
         mode = 'clauses'
@@ -279,6 +280,9 @@ class Unit:
             m = re.match(r'ret\s+(\w+)\s*$', t)
             if m:
                 ret_name = m.group(1)
+                continue
+            if t == 'mutself':
+                mutself = True
                 continue
             m = re.match(r'use-lemmas\s+(.*)$', t)
             if m:
@@ -313,6 +317,13 @@ class Unit:
                 body_open = k
                 break
         head, ret, where = X.fn_signature_split(txt, body_open)
+        if mutself:
+            # R8: sequential semantics of Arc<RwLock<_>>: a `&self` method that mutates shared state
+            # through a lock is checked as `&mut self` (signature only; the body is unchanged)
+            head, k = re.subn(r'\(\s*&\s*self\b', '(&mut self', head, count=1)
+            if k != 1:
+                raise X.AnchorError('fn %s: mutself but no &self receiver' % name)
+            rw.bump('R8')
         if rename:
             head = re.sub(r'\bfn\s+%s\b' % re.escape(name), 'fn ' + rename, head, count=1)
         body = txt[body_open:]
